@@ -14,7 +14,14 @@ import (
 	"golang.org/x/tools/go/ssa"
 )
 
-const repoDir = "/repo"
+// repoDir is /repo for every registered command; VP_REPO_DIR points a run at a scratch worktree
+// of /repo instead (only bin/seedcheck_wt.sh uses it, to try a seeded change without touching /repo).
+var repoDir = func() string {
+	if d := os.Getenv("VP_REPO_DIR"); d != "" {
+		return d
+	}
+	return "/repo"
+}()
 
 var alwaysRoots = []string{"sort", "slices", "math", "math/bits", "encoding/binary", "container/heap", "bytes", "strings",
 	"unicode/utf8", "errors", "cmp", "iter", "maps", "sync/atomic", "go.uber.org/atomic"}
